@@ -4,6 +4,7 @@ package main
 // block-reachability encoding with merged states, loops cut at headers).
 
 import (
+	"os"
 	"sort"
 	"fmt"
 	"go/token"
@@ -136,13 +137,14 @@ func (t *Tr) define(prefix string, s Sort, term string) string {
 	}
 	t.n++
 	name := fmt.Sprintf("%s_%d", prefix, t.n)
-	if s != SBool_ && (strings.Contains(term, "(ite ") || (s == SInt_ && (strings.HasPrefix(term, "(+ ") || strings.HasPrefix(term, "(- ")))) {
+	if os.Getenv("GOVC_NODECL") == "" && s != SBool_ && (strings.Contains(term, "(ite ") || (s == SInt_ && (strings.HasPrefix(term, "(+ ") || strings.HasPrefix(term, "(- ")))) {
 		// (sums too: z3 flattens an expanded sum into the enclosing one, and a
 		// pattern (+ off i) no longer matches (+ off j 1))
 		// z3 expands define-fun before it reads patterns and rejects patterns
 		// that contain ite: a conditional value that may occur in a trigger is
 		// a constant with a defining equation instead of a macro
-		t.vc.Items = append(t.vc.Items, Item{Kind: itDecl, Text: fmt.Sprintf("(declare-const %s %s)\n(assert (= %s %s))", name, s, name, term)})
+		// (candidate-model rendering keeps the macro: model search is much faster with it)
+		t.vc.Items = append(t.vc.Items, Item{Kind: itDecl, Text: fmt.Sprintf("(declare-const %s %s)\n(assert (= %s %s))", name, s, name, term), AltC: fmt.Sprintf("(define-fun %s () %s %s)", name, s, term)})
 		return name
 	}
 	t.vc.Items = append(t.vc.Items, Item{Kind: itDecl, Text: fmt.Sprintf("(define-fun %s () %s %s)", name, s, term)})
